@@ -3,6 +3,7 @@ package eventbus
 import (
 	"context"
 	"math"
+	"runtime"
 	"sync"
 	"time"
 )
@@ -214,7 +215,7 @@ func harnessC20BusLevel() {
 	vCover("checked")
 }
 
-//verif:entry property=C20 tier=both bounds="one Async handler (optionally Sequential, optionally context-aware) and a publisher that cancels the publish context right after Publish returned; every interleaving within the preemption bound; handler start/complete pairs = invocations that really ran" cover="checked" preempt_quick=2 preempt_thorough=3 race=on
+//verif:entry property=C20 tier=both bounds="one Async handler (optionally Sequential, optionally context-aware, optionally ending its goroutine with runtime.Goexit) and a publisher that cancels the publish context right after Publish returned; every interleaving within the preemption bound; handler start/complete pairs = invocations that really ran" cover="checked" preempt_quick=2 preempt_thorough=3 race=on
 func harnessC20AsyncCancelled() {
 	obs := &c20Obs{}
 	bus := New(WithObservability(obs))
@@ -224,10 +225,14 @@ func harnessC20AsyncCancelled() {
 	if vBool() {
 		so = append(so, Sequential())
 	}
+	goexit := vBool() // the handler ends its goroutine with runtime.Goexit (what t.FailNow and t.SkipNow do)
 	body := func() {
 		mu.Lock()
 		runs++
 		mu.Unlock()
+		if goexit {
+			runtime.Goexit()
+		}
 	}
 	if vBool() {
 		SubscribeContext(bus, func(ctx context.Context, e evA) { body() }, so...)
